@@ -27,6 +27,9 @@ def build(ctx, n, positive, with_bounds, dimcoord, data_pos, depth_mode, second=
         inc = And(*[d[i] < d[i + 1] for i in range(n - 1)])
         dec = And(*[d[i] > d[i + 1] for i in range(n - 1)])
         ctx.assume(Or(inc, dec))
+    elif isinstance(depth_mode[0], str):
+        # whole-metre levels stored in an integer type
+        d = numpy.array(depth_mode[1], dtype=depth_mode[0])
     else:
         d = numpy.array(depth_mode, dtype=float)
     attrs = {}
@@ -34,7 +37,13 @@ def build(ctx, n, positive, with_bounds, dimcoord, data_pos, depth_mode, second=
         attrs['positive'] = positive
     variables = {}
     if with_bounds:
-        b = depthcommon.sym_values(ctx, 'zb', (n, 2), base=50.0)
+        if depth_mode != 'symbolic' and isinstance(depth_mode[0], str):
+            # ... with layer interfaces half-way between them (fractional, float64)
+            v = [float(x) for x in d]
+            e = [v[0] - (v[1] - v[0]) / 2] + [(p + q) / 2 for p, q in zip(v, v[1:])] + [v[-1] + (v[-1] - v[-2]) / 2]
+            b = numpy.array([[e[k], e[k + 1]] for k in range(n)])
+        else:
+            b = depthcommon.sym_values(ctx, 'zb', (n, 2), base=50.0)
         attrs['bounds'] = 'zc_bnds'
         variables['zc_bnds'] = ((dim, 'bnds'), b, {'note': 'bounds'})
     else:
@@ -254,6 +263,13 @@ def cases(tier):
                        dict(n=2 if second else 3, positive=positive, with_bounds=not second, dimcoord=False, data_pos=1,
                             pd=pd, d2s=d2s, depth_mode='symbolic', via='convention', second=second),
                        patches=depthcommon.patches, max_paths=200)
+    # integer-typed depth coordinates with fractional float bounds
+    for dt, vals, positive in (('int32', (5, 10, 25), 'down'), ('int16', (-40, -15, -4), 'up'), ('int64', (30, 7), 'DOWN')):
+        for (pd, d2s) in opts:
+            yield Case(f'intdepth:{dt}:{positive}:pd{pd}:d2s{d2s}', body,
+                       dict(n=len(vals), positive=positive, with_bounds=True, dimcoord=(dt == 'int16'), data_pos=1,
+                            pd=pd, d2s=d2s, depth_mode=(dt, vals), via='function'),
+                       patches=depthcommon.patches, max_paths=50)
     # positive attribute missing: the sign is guessed from the values (concrete depth values, symbolic data)
     for vals in ((0.5, 1.5, 2.5), (-0.5, -1.5, -2.5), (4.0, 2.0, 0.5), (-4.0, -2.0), (-20.0, -10.0, -5.0, -1.0, 1000.0), (30.0, 20.0, 5.0, -500.0)) if q else \
             ((0.5, 1.5, 2.5), (-0.5, -1.5, -2.5), (4.0, 2.0, 0.5), (-4.0, -2.0), (-3.0, -2.0, -1.0, -0.25), (9.0, 5.0)):
